@@ -29,7 +29,7 @@ def run_config(chk, tier, cfgname):
     from gcv import rules_metrics, rules_debt
     rules_metrics.run(chk, prog)
     # debt is clamped / zero for an empty arena / monotone in its inputs; helper and adjust_debt shapes
-    rules_debt.check_formula(chk, prog)
+    rules_debt.check_formula(chk, prog, for_c10=True)
     rules_debt.check_helpers(chk, prog)
 
 
